@@ -78,12 +78,18 @@ fn has_opt_null(t: &Tree) -> bool {
 }
 
 /// Exclude the two known findings by construction (counted by the caller).
-fn sanitize(t: &Tree, n_excl: &mut u64) -> Tree {
-    fn data(d: &TData, n: &mut u64) -> TData {
+pub fn sanitize(t: &Tree, n_excl: &mut u64) -> Tree {
+    sanitize_opts(t, n_excl, true)
+}
+
+/// `zw_seq`: also rewrite sequences of zero-width elements (only the bytes/allocation checks
+/// need that; the JSON encode->decode->encode clause holds for them and stays covered)
+pub fn sanitize_opts(t: &Tree, n_excl: &mut u64, zw_seq: bool) -> Tree {
+    fn data(d: &TData, n: &mut u64, zw_seq: bool) -> TData {
         match d {
             TData::Unit => TData::Unit,
-            TData::Newtype(i) => TData::Newtype(Box::new(sanitize(i, n))),
-            TData::Tuple(ts) => TData::Tuple(ts.iter().map(|t| sanitize(t, n)).collect()),
+            TData::Newtype(i) => TData::Newtype(Box::new(sanitize_opts(i, n, zw_seq))),
+            TData::Tuple(ts) => TData::Tuple(ts.iter().map(|t| sanitize_opts(t, n, zw_seq)).collect()),
             TData::Struct(fs) => {
                 let mut out: Vec<(String, Tree)> = vec![];
                 for (i, (k, t)) in fs.iter().enumerate() {
@@ -92,7 +98,7 @@ fn sanitize(t: &Tree, n_excl: &mut u64) -> Tree {
                         *n += 1;
                         name = format!("{}#{}", k, i);
                     }
-                    out.push((name, sanitize(t, n)));
+                    out.push((name, sanitize_opts(t, n, zw_seq)));
                 }
                 TData::Struct(out)
             }
@@ -100,7 +106,7 @@ fn sanitize(t: &Tree, n_excl: &mut u64) -> Tree {
     }
     match t {
         Tree::Option(i) => {
-            let i2 = sanitize(i, n_excl);
+            let i2 = sanitize_opts(i, n_excl, zw_seq);
             if dyn_nullable(&i2) {
                 *n_excl += 1;
                 Tree::Option(Box::new(Tree::Tuple(vec![i2, Tree::Bool])))
@@ -109,18 +115,18 @@ fn sanitize(t: &Tree, n_excl: &mut u64) -> Tree {
             }
         }
         Tree::Seq(i) => {
-            let i2 = sanitize(i, n_excl);
-            if dynmap::tree_zero_width(&i2) {
+            let i2 = sanitize_opts(i, n_excl, zw_seq);
+            if zw_seq && dynmap::tree_zero_width(&i2) {
                 *n_excl += 1;
                 Tree::Seq(Box::new(Tree::Tuple(vec![i2, Tree::U8])))
             } else {
                 Tree::Seq(Box::new(i2))
             }
         }
-        Tree::Tuple(ts) => Tree::Tuple(ts.iter().map(|t| sanitize(t, n_excl)).collect()),
-        Tree::Map(k, v) => Tree::Map(Box::new(sanitize(k, n_excl)), Box::new(sanitize(v, n_excl))),
-        Tree::Struct(n, d) => Tree::Struct(n.clone(), data(d, n_excl)),
-        Tree::Enum(n, vs) => Tree::Enum(n.clone(), vs.iter().map(|(k, d)| (k.clone(), data(d, n_excl))).collect()),
+        Tree::Tuple(ts) => Tree::Tuple(ts.iter().map(|t| sanitize_opts(t, n_excl, zw_seq)).collect()),
+        Tree::Map(k, v) => Tree::Map(Box::new(sanitize_opts(k, n_excl, zw_seq)), Box::new(sanitize_opts(v, n_excl, zw_seq))),
+        Tree::Struct(n, d) => Tree::Struct(n.clone(), data(d, n_excl, zw_seq)),
+        Tree::Enum(n, vs) => Tree::Enum(n.clone(), vs.iter().map(|(k, d)| (k.clone(), data(d, n_excl, zw_seq))).collect()),
         other => other.clone(),
     }
 }
@@ -372,7 +378,7 @@ pub fn run(ctx: &Ctx) {
     );
     ctx.assume("hangs / out-of-memory are exit 2; the allocation clause is decided by the measured number on moderate claims");
     let cfg = TreeCfg { depth: 4, width: 4, exotic: true };
-    let n = ctx.tier.pick(40_000, 2_000_000);
+    let n = ctx.tier.pick(300_000, 3_000_000);
     ctx.par_proptest(
         "bytes",
         n,
@@ -427,14 +433,14 @@ pub fn run(ctx: &Ctx) {
             Ok(())
         },
     );
-    let n = ctx.tier.pick(30_000, 1_500_000);
+    let n = ctx.tier.pick(200_000, 2_000_000);
     ctx.par_proptest(
         "json",
         n,
         || (arb_case(cfg), arb_json(3)),
         |((t0, j, _), random), l| {
             let mut ex = 0;
-            let t = sanitize(t0, &mut ex);
+            let t = sanitize_opts(t0, &mut ex, false);
             l.excluded_known += ex;
             check_json(&t, random, false, l)?;
             if ex == 0 {
@@ -450,7 +456,7 @@ pub fn run(ctx: &Ctx) {
             Ok(())
         },
     );
-    let n = ctx.tier.pick(4_000, 60_000);
+    let n = ctx.tier.pick(20_000, 200_000);
     ctx.par_proptest(
         "deep-and-wide-schemas",
         n,
